@@ -449,3 +449,7 @@ CLAUSES = [
     Clause("shipped_notebooks", None, run_notebook, quick=0, thorough=0, exhaustive=ex_notebooks, rule="every check cell of the shipped with-answers notebooks prints OK when executed in-process"),
 ]
 KNOWN_PREDICATES = {}
+
+# coverage-guided second driver (atheris / libFuzzer through Hypothesis' fuzz_one_input) for the core clauses: (clause, quick runs, thorough runs)
+from harness.covfuzz import cov_clauses  # noqa: E402
+CLAUSES += cov_clauses('C13', CLAUSES, [('for_language', 1000, 20000), ('unary', 1000, 20000)])
